@@ -686,6 +686,33 @@ def run(ctx: Context) -> None:
         if "_atomic_status_transition" in k or "MemOrchestrator" in k:  # the status transition only (the queue pop is C02 / C08)
             ctx.add("R6", k, i.ok, i.where, i.detail)
     ctx.floor("R6", "atomic-step obligations", ctx.count("R6"), 8)
+    # R7: a refused request changes NOTHING: in set_invocation_status every effectful call (waiter release, purge registration,
+    # history, trigger report, ...) is reachable only through the normal exit of the atomic transition
+    ctx.rule("R7", "a refused status request has no side effect: in BaseOrchestrator.set_invocation_status every call on self / self.app components other than the atomic transition itself is reachable only through the transition's normal exit")
+    bo = ctx.repo.cls("BaseOrchestrator")
+    so = bo.methods.get("set_invocation_status")
+    if so is None:
+        raise AnalysisError("anchor-vanished: BaseOrchestrator.set_invocation_status")
+    g7 = func_cfg(ctx.repo, so)
+    pm7 = parent_map(so.node)
+    trans = [c for c in calls_in(so.node) if call_name(c) == "_atomic_status_transition"]
+    if len(trans) != 1:
+        raise AnalysisError("anchor-vanished: one _atomic_status_transition call in set_invocation_status")
+    tn7 = {n.id for n in cfg_node_of(g7, so.node, trans[0], pm7)}
+    unreached = _reachable_without_normal_exit(g7, tn7)
+    n7 = 0
+    for c in calls_in(so.node):
+        if c is trans[0] or not isinstance(c.func, ast.Attribute):
+            continue
+        recv = ast.unparse(c.func.value)
+        if not (recv == "self" or recv.startswith("self.app.")) or ".logger" in recv or recv.endswith("logger"):
+            continue
+        if any(x is c for x in ast.walk(trans[0])):
+            continue  # an argument of the transition call
+        n7 += 1
+        early = any(n.id in unreached for n in cfg_node_of(g7, so.node, c, pm7))
+        ctx.add("R7", f"{so.qualname}::{call_name(c)}::only-after-the-accepted-transition", not early, so.loc(c), "" if not early else f"`{ast.unparse(c)[:60]}` can run although the requested transition is refused (it precedes the transition or sits on its failure path): a request the state machine rejects still changes the system")
+    ctx.floor("R7", "effects of a status change", n7, 3)
     ctx.exhaustive = True
     ctx.not_decided += [
         "multi-step request sequences beyond what single-step closure + single writer + atomicity (C02) imply",
